@@ -177,6 +177,17 @@ func Verif_C11_rows() {
 		var one verifTagged
 		err := unmarshalRow(&one, &verifRows{cols: []string{"name", "age"}}, strict)
 		verifAssert(err == ErrNotFound, "a single-row query reports ErrNotFound on an empty result")
+		// ... whatever the result's columns are: an empty result with fewer (or other) columns than
+		// the destination has fields is still "not found", in strict and in partial mode
+		var oneFew verifTagged
+		err = unmarshalRow(&oneFew, &verifRows{cols: []string{"name"}}, strict)
+		verifAssert(err == ErrNotFound, "a single-row query reports ErrNotFound on an empty result, also when the result has fewer columns than the destination has fields")
+		var oneU verifEmbedded
+		err = unmarshalRow(&oneU, &verifRows{cols: []string{"c1"}}, strict)
+		verifAssert(err == ErrNotFound, "a single-row query reports ErrNotFound on an empty result (untagged, embedded destination, one column)")
+		var onePrim int64
+		err = unmarshalRow(&onePrim, &verifRows{cols: []string{"c1", "c2"}}, strict)
+		verifAssert(err == ErrNotFound, "a single-row query reports ErrNotFound on an empty result (primitive destination)")
 		var many []verifTagged
 		cols := []string{"age", "name"}
 		err = unmarshalRows(&many, &verifRows{cols: cols, rows: [][]verifCell{verifRowOf(cols, name, age, 0, 0), verifRowOf(cols, name, score, 0, 0)}}, strict)
